@@ -140,10 +140,11 @@ ANIM_VALUES = {
 }
 
 
-def fam_anim(nsteps):
+def fam_anim(nsteps, step_times=None):
+  step_times = step_times or STEP_TIMES
   lvls = ["region", "div", "p", "span"]
   doms = [lvls, [F(1), F(3, 2)], [None, F(4)], [None, F(1, 2)] if nsteps == 1 else [None], [0, 1, 2] if nsteps == 1 else [0, 1]] \
-    + [STEP_TIMES] * nsteps + [[0, 1]] * nsteps
+    + [step_times] * nsteps + [[0, 1]] * nsteps
   prod = Product(doms)
 
   def dec(i):
@@ -216,5 +217,5 @@ def plan(tier, seed):
   fams.append(fam_anim(2))
   fams.append(fam_region_bg())
   if tier == "thorough":
-    fams.append(fam_anim(3))
+    fams.append(fam_anim(3, STEP_TIMES[::2]))
   return fams
